@@ -45,7 +45,7 @@ func h1OraclesMore(env *Env, c *H1Cfg, st *h1State, hr *h1Run, runIdx int, stats
 	// ---- C16: metrics -------------------------------------------------------------------------------
 	if hr.GatherErr != "" {
 		env.Violate("C16", "gather-error", "metrics/gather", "Gather failed: %s", hr.GatherErr)
-	} else if quiet {
+	} else if quiet || (!timedOut && allEnded && hr.HaveCounts) {
 		setupSeries := 0
 		for _, s := range hr.Gathered {
 			if s.Labels["test"] != g.Scenario {
@@ -263,6 +263,30 @@ func h1Output(env *Env, c *H1Cfg, hr *h1Run, stats simrt.Stats, timedOut, allEnd
 			env.Hit("h1.summary_checked")
 		}
 	}
+	// every message is printed exactly once and whole: one banner, one teardown line, one summary
+	if printing && stats.Stalls == 0 {
+		count := func(sub string) int {
+			n := 0
+			for _, p := range rec.Out {
+				n += strings.Count(p.Text, sub)
+			}
+			return n
+		}
+		for _, it := range []struct {
+			sub  string
+			want int
+		}{{"F1 Load Tester", 1}, {"[Teardown]", 1}, {"Load Test Passed", -1}, {"Full logs:", 1}} {
+			n := count(it.sub)
+			if it.want == -1 {
+				n += count("Load Test Failed")
+				it.want = 1
+			}
+			if n != it.want {
+				env.Violate("C19", "message-lost-or-duplicated", "output/text", "%q appears %d times in the printed output, expected %d", it.sub, n, it.want)
+			}
+		}
+		env.Hit("h1.printed_messages_checked")
+	}
 	// progress lines
 	type pl struct {
 		seq       uint64
@@ -323,7 +347,7 @@ func h1Output(env *Env, c *H1Cfg, hr *h1Run, stats simrt.Stats, timedOut, allEnd
 		}
 		// the per-period figures of a printed line: "(N/s)" is the period's successful count per second and
 		// "avg/min/max" its durations; the lifetime counts on consecutive lines give the period's count
-		if !l.structure && stats.Stalls == 0 && c.SlowOutputNs == 0 {
+		if !l.structure && stats.Stalls == 0 && c.SlowOutputNs < 500*ms {
 			if m := reProgRate.FindStringSubmatch(l.text); m != nil {
 				rate, _ := strconv.ParseUint(m[1], 10, 64)
 				var prevS uint64
